@@ -170,6 +170,9 @@ def softmax : P String := do
   let v : Verdict := { tag := if deleg then "softmax greedy" else if (List.range n).any inf then "softmax inf" else "softmax" }
   let (v, probs) := xrow v comp "query" probsX
   let (v, policy) := xrow v comp "table" policyX
+  -- hypotheses of `softmax_submax_distribution` on the exponentials the harness took with the library's expression
+  let v := v.diffIf (AITB.Gen.C09.smSubtractMax && !deleg && !((List.range n).all (fun i => !(inf i) && decide (0 ≤ ef i) && decide (ef i ≤ 1)) && (List.range n).any (fun i => ef i == 1)))
+    s!"{comp} exp_hypothesis: exp((q - max)/T) not in [0,1] with a 1"
   let sumE := sumTo n ef
   -- model (skipped where the model itself divides by zero: the implementation then produces NaN, reported above)
   let degenerate := !deleg && !((List.range n).any inf) && sumE == 0
